@@ -500,7 +500,7 @@ fn format_directive<'entry>(
         FormatDirective::Permissions(PermissionsFormat::Octal) => "777".into(),
         #[cfg(unix)]
         FormatDirective::Permissions(PermissionsFormat::Octal) => {
-            format!("{:>03o}", meta()?.mode() & 0o777).into()
+            format!("{:>03o}", meta()?.mode() & 0o7777).into()
         }
 
         FormatDirective::Size => meta()?.len().to_string().into(),
